@@ -24,6 +24,7 @@ Fixpoint eval (rho:env) (e:expr) : eres :=
   | Un UNeg c => ebind (eval rho c) (fun v => EOk (nneg v))
   | Un UFact c => ebind (eval rho c) (fun v => match nfact v with Some n => EOk n | None => EValueError end)
   | Un USgn c => ebind (eval rho c) (fun v => EOk (nsgn v))
+  | Un UAbs c => ebind (eval rho c) (fun v => EOk (nabs v))
   | Bin k l r => ebind (eval rho l) (fun a => ebind (eval rho r) (fun b => operate k a b))
   end.
 Definition no_env : env := fun _ => None.
